@@ -54,6 +54,7 @@ class ThreadView:
         self.events = []
         self.windows = []
         self.lone_starts = []
+        self.stray_ends = []
         self.sample_windows = []
         self.unclosed_start = None
 
@@ -146,7 +147,9 @@ class Analysis:
                     cur = Window(tv.tid, tv.k, ev, None)
                 elif ev.kind == E.TS_END:
                     if last_start is None:
-                        self.struct_errors.append("ts_end without ts_start on t%d #%d" % (tv.tid, ev.seq))
+                        # an end reading that closes no window (e.g. a re-read after the sample): kept as evidence, the oracles
+                        # that compare recorded durations with windows decide what it means
+                        tv.stray_ends.append(ev)
                         continue
                     cur.e = ev
                     tv.windows.append(cur)
@@ -1020,6 +1023,9 @@ def check_c05_chain(an):
             if idx >= len(rep["samples"]):
                 break
             got.append((rep["samples"][idx], tuple((rep["counters"][k][idx] if (k in cfg.ic and idx < len(rep["counters"][k])) else -1) for k in range(4))))
+        if s and any(w.calls != s for w in wins.values()):
+            out.append(V("C05", "sample_size_not_iterations", "recorded round %d: reported sample size %d, but its samples ran %s calls (every figure is divided by the sample size)" % (
+                j, s, sorted(w.calls for w in wins.values())), [w.s for w in wins.values()]))
         if sorted(exp) != sorted(got):
             out.append(V("C05", "recorded_vs_clock", "recorded round %d: (duration, per-input counts) %s, clock readings and count events give %s" % (j, sorted(got), sorted(exp)), [w.s for w in wins.values()]))
         checked += len(got)
@@ -1071,6 +1077,17 @@ def check_c08_order(an):
             lo = tv.sample_windows[w.ordinal - 1].e.seq if w.ordinal > 0 else -1
             hi = tv.sample_windows[w.ordinal + 1].s.seq if w.ordinal + 1 < len(tv.sample_windows) else None
             cleared = False
+            # a value dropped inside the thread's own timed section is dropped before anyone's end timestamp of this round
+            depth = 0
+            for ev in w.inner:
+                if ev.kind == E.CALL_BEGIN:
+                    depth += 1
+                elif ev.kind == E.CALL_END:
+                    depth -= 1
+                elif ev.kind == E.DROP_OUT or (ev.kind == E.DROP_IN and depth <= 0):
+                    if first_drop is None or ev.seq < first_drop.seq:
+                        first_drop = ev
+                    break
             for ev in tv.events:
                 if lo < ev.seq < w.s.seq:
                     if ev.kind in (E.GEN, E.COUNT):
@@ -1101,6 +1118,18 @@ def check_c08_order(an):
     return out, {"rounds_checked": rounds_checked, "rounds_with_drops": drop_rounds, "rounds_with_clear_points": clear_rounds}
 
 
+def check_c02_chain(an):
+    """C02 seen from the report: the duration recorded for a sample is the distance between the start and end reading that
+    enclose its calls and nothing else (a re-read end timestamp, or one taken after the drops, shows up here)."""
+    vs, info = check_c05_chain(an)
+    out = [V("C02", "recorded_duration_not_its_window", v.msg, v.witness) for v in vs if v.code == "recorded_vs_clock"]
+    stray = sum(len(tv.stray_ends) for tv in an.threads.values())
+    if stray and out:
+        out.append(V("C02", "end_timestamp_reread", "%d end readings were taken outside any timed section and a recorded duration does not match its window" % stray,
+                     [tv.stray_ends[0] for tv in an.threads.values() if tv.stray_ends][:3]))
+    return out, {"chain_samples_c02": info.get("chain_samples", 0), "stray_end_reads": stray}
+
+
 def check_c11_chain(an):
     """C11 end to end: a recorded sample is floor(ticks * 10^12 / f) of the window the log shows."""
     vs, info = check_c05_chain(an)
@@ -1110,7 +1139,7 @@ def check_c11_chain(an):
 ALL_CHECKS = {
     "C11": [check_c11_chain],
     "C01": [check_c01],
-    "C02": [check_c02],
+    "C02": [check_c02, check_c02_chain],
     "C03": [check_c03],
     "C04": [check_c04],
     "C05": [check_c05, check_c05_chain],
